@@ -20,7 +20,7 @@ META = {
 RULE = ("case = document whose entry keys, string keys and field keys come from small pools; all assignments for <= n templated items "
         "(exhaustive) + random grammar derivations; non-trivial = at least one key collision of either kind; distinct = distinct text")
 ASSUMPTIONS = ["entries and strings have separate key spaces", "an entry with repeated field keys does not register its key (statement)"]
-MIN = {"structure_split": (10000, 200000), "structure_parse_string": (10000, 200000), "dupkey_wrapper": (5000, 100000), "dupfield_wrapper": (3000, 50000), "structure_parse_string_copy_stack": (3000, 60000), "structure_split_into_existing_library": (3000, 60000)}
+MIN = {"structure_split": (10000, 200000), "structure_parse_string": (10000, 200000), "dupkey_wrapper": (5000, 100000), "dupfield_wrapper": (3000, 50000), "structure_parse_string_copy_stack": (3000, 60000), "structure_split_into_existing_library": (3000, 60000), "structure_parse_string_field_middlewares": (3000, 60000)}
 
 FIELDSETS = [[], ["t"], ["t", "u"], ["t", "t"], ["t", "u", "t"], ["t", "T"], ["u", "u", "u"]]
 KEYS = ["a", "b"]
@@ -102,11 +102,14 @@ def expect(items):
     return out, live_e, live_s
 
 
-def inner_matches(block, it, values):
-    """Does a (possibly wrapped) block carry the complete item?"""
+def inner_matches(block, it, values, loose=False):
+    """Does a (possibly wrapped) block carry the complete item?  loose: a live entry that went through a field-restructuring
+    middleware is only compared by type and key."""
     if it["kind"] == "entry":
         if sp.block_kind(block) != "entry" or block.entry_type != it["type"] or block.key != it["key"]:
             return False
+        if loose:
+            return True
         if [f.key for f in block.fields] != [f[0] for f in it["fields"]]:
             return False
         if values and [f.value for f in block.fields] != [f[1] for f in it["fields"]]:
@@ -119,7 +122,7 @@ def inner_matches(block, it, values):
     return (not values) or block.raw == it["raw"]
 
 
-def compare(lib, items, ctx, api, values, copied=False):
+def compare(lib, items, ctx, api, values, copied=False, loose_live=False):
     exp, live_e, live_s = expect(items)
     blocks = lib.blocks
     if len(blocks) != len(exp):
@@ -133,7 +136,14 @@ def compare(lib, items, ctx, api, values, copied=False):
             if b.key != e["key"]:
                 return Violation("dupkey-key", "C09:dupkey-key", dict(index=i, got=b.key, want=e["key"]))
             first = blocks[e["prev"]]
-            if copied:
+            if copied and loose_live:
+                # (the live first block may have been restructured by the appended middleware; the wrapper still has to expose
+                # the first block: the same object, or a copy of it taken at some stage of the stack: same kind, type and key)
+                pb = b.previous_block
+                if pb is not first and (pb is None or not inner_matches(pb, items[e["prev"]], False, loose=True)):
+                    return Violation("dupkey-previous", "C09:dupkey-previous-not-first:field-middleware-stack",
+                                     dict(index=i, want=items[e["prev"]]["fields"], got=sp.project(pb) if pb is not None else None))
+            elif copied:
                 pb = b.previous_block
                 same = pb is not None and sp.block_kind(pb) == sp.block_kind(first) and pb.key == first.key and \
                     (sp.block_kind(pb) != "entry" or (pb.entry_type == first.entry_type and [f.key for f in pb.fields] == [f.key for f in first.fields]))
@@ -155,7 +165,7 @@ def compare(lib, items, ctx, api, values, copied=False):
                 return Violation("dupfield-inner", "C09:dupfield-inner-incomplete",
                                  dict(index=i, got=sp.project(b.ignore_error_block) if b.ignore_error_block is not None else None, want=e["item"]["fields"]))
         elif k in ("entry", "string"):
-            if not inner_matches(b, e["item"], values):
+            if not inner_matches(b, e["item"], values, loose=loose_live):
                 return Violation("live-block-differs", f"C09:live-{k}-differs", dict(index=i, got=sp.project(b)))
     ed, sd = lib.entries_dict, lib.strings_dict
     if set(ed) != set(live_e) or any(ed[k] is not blocks[i] for k, i in live_e.items()):
@@ -188,6 +198,19 @@ def parse_copy_stack(text):
                                                                           RemoveEnclosingMiddleware(allow_inplace_modification=False)]))
 
 
+def parse_field_stack(text, n):
+    """parse_string with a shipped field-restructuring middleware appended to the default stack: failed blocks are not what
+    these middlewares are for; the wrapped entry of a duplicate-field / duplicate-key block must come back complete and in
+    source order whatever the stack (seed C09-g)."""
+    import bibtexparser
+    from bibtexparser.middlewares import NormalizeFieldKeys, SortFieldsAlphabeticallyMiddleware, SortFieldsCustomMiddleware
+    inplace = bool(n & 1)
+    mws = [[NormalizeFieldKeys(allow_inplace_modification=inplace)], [SortFieldsAlphabeticallyMiddleware(allow_inplace_modification=inplace)],
+           [SortFieldsCustomMiddleware(order=("u", "t"), allow_inplace_modification=inplace)],
+           [SortFieldsAlphabeticallyMiddleware(allow_inplace_modification=inplace), NormalizeFieldKeys(allow_inplace_modification=not inplace)]][(n >> 1) % 4]
+    return sp.escape(lambda: bibtexparser.parse_string(text, append_middleware=mws))
+
+
 def check(case, ctx):
     text = case["text"]
     items = recogniser.recognise(text)
@@ -203,6 +226,9 @@ def check(case, ctx):
         # the document arrives in two pieces, the second parsed INTO the library of the first (library= argument)
         cut = items[(ctx.cases // 3) % (len(items) - 1) + 1]["start"]
         apis.append(("split_into_existing_library", lambda t: into_existing(t, cut), True))
+    if ctx.cases % 3 == 2:
+        n = ctx.cases // 3
+        apis.append(("parse_string_field_middlewares", lambda t: parse_field_stack(t, n), False))
     for api, fn, values in apis:
         st, lib = fn(text)
         ctx.ran()
@@ -210,7 +236,7 @@ def check(case, ctx):
         if st == "raise":
             out.append(Violation("raised", f"C09:raise:{lib.split(':')[0]}", dict(api=api, error=lib, text=text)))
             continue
-        v = compare(lib, items, ctx, api, values, copied=api.endswith("copy_stack"))
+        v = compare(lib, items, ctx, api, values, copied=api.endswith("copy_stack") or api.endswith("field_middlewares"), loose_live=api.endswith("field_middlewares"))
         if v:
             v["detail"]["text"] = text
             v["detail"]["api"] = api
